@@ -784,3 +784,10 @@ def is_call(e, name=None):
 
 def is_bin(e, op=None):
     return isinstance(e, tuple) and e[0] == "bin" and (op is None or e[1] == op or (isinstance(op, (set, tuple, list)) and e[1] in op))
+
+
+def payload_variant_of(e):
+    """(x as V).0 -> V"""
+    if isinstance(e, tuple) and e[0] == "field" and e[2] == "0" and e[1][0] == "variant":
+        return e[1][2]
+    return None
